@@ -502,9 +502,9 @@ func c15Binary(c *sim.Case) {
 		c.Skip("no service binary")
 	}
 	w := sim.NewWorld(c, sim.WorldOpts{ViaServer: true, RealFactory: true, Binary: true, Logout: true, AccessToken: true,
-		Store: sim.PickStr(c, "store", "memory", "redis"), TriggerRules: coveringRules(c, "/a")})
+		BinaryLogLevel: sim.PickStr(c, "binary.log", "debug", "error", "info", "trace"),
+		Store:          sim.PickStr(c, "store", "memory", "redis"), TriggerRules: coveringRules(c, "/a")})
 	defer w.Close()
-	w.Full.LogLevel = "debug"
 	b := w.NewBrowser("a")
 	lr := b.Login("/a")
 	sid := ""
